@@ -189,6 +189,9 @@ fn decode_table(input: &[u8], k: &mut Known) -> String {
 
 struct Session {
     init: Vec<(String, Vec<u8>)>,
+    /// leftover staging files of servers that no longer exist (reserved names: not part of the model's tree; the hub
+    /// must not touch them before a well-formed request either)
+    stale: Vec<(String, Vec<u8>)>,
     input: Vec<u8>,
     class: &'static str,
 }
@@ -374,7 +377,14 @@ fn gen_sessions(seed: u64, tier: &str) -> Vec<Session> {
                 for f in &frames { input.extend(f); }
             }
         }
-        out.push(Session { init, input, class });
+        let mut stale = vec![];
+        if r.chance(1, 3) {
+            stale.push((format!("{}.999999.17a0b3c4d5e6f708.0.copia-tmp", r.pick(&["a", "d/x", "zz"])), b"half of a Put that never completed".to_vec()));
+            if r.chance(1, 2) {
+                stale.push(("b.copia-tmp".to_string(), vec![0x58; 100]));
+            }
+        }
+        out.push(Session { init, stale, input, class });
     }
     out
 }
@@ -385,6 +395,7 @@ pub fn main_c12(a: Args) -> i32 {
     let sessions: Vec<Session> = if let Some(p) = &a.replay {
         std::fs::read_to_string(p).unwrap().lines().filter(|l| !l.trim().is_empty() && !l.starts_with('#')).map(|l| {
             let mut init = vec![];
+            let mut stale = vec![];
             let mut input = vec![];
             for f in l.split_whitespace().skip(1) {
                 if let Some((k, v)) = f.split_once('=') {
@@ -395,10 +406,15 @@ pub fn main_c12(a: Args) -> i32 {
                         }
                     } else if k == "IN" {
                         input = unhex(v);
+                    } else if k == "ST" && v != "-" {
+                        for e in v.split(';') {
+                            let (p, c) = e.split_once(':').unwrap();
+                            stale.push((String::from_utf8_lossy(&unhex(p)).into_owned(), unhex(c)));
+                        }
                     }
                 }
             }
-            Session { init, input, class: "replay" }
+            Session { init, stale, input, class: "replay" }
         }).collect()
     } else {
         gen_sessions(a.seed, &a.tier)
@@ -408,9 +424,19 @@ pub fn main_c12(a: Args) -> i32 {
     let mut distinct = std::collections::HashSet::new();
     for (id, s) in sessions.iter().enumerate() {
         write_tree(&root, &s.init);
+        for (p, c) in &s.stale {
+            let full = format!("{}/{}", root, p);
+            if let Some(par) = std::path::Path::new(&full).parent() { let _ = std::fs::create_dir_all(par); }
+            let _ = std::fs::write(&full, c);
+        }
+        // raw: every file outside the control directory, staging leftovers included (C12: nothing in the served tree
+        // changes before a well-formed request)
+        let raw = |root: &str| -> Vec<(String, Vec<u8>)> { snapshot(root).into_iter().filter(|(p, _)| !p.starts_with(".copia/")).collect() };
+        let before_raw = raw(&root);
         let before = tree_string(&root);
         let run = run_serve(&copia, &root, &s.input, &[]);
         let after = tree_string(&root);
+        let after_raw = raw(&root);
         let mut k = Known { by_hash: HashMap::new() };
         for (_, c) in &s.init {
             k.add(c);
@@ -428,7 +454,9 @@ pub fn main_c12(a: Args) -> i32 {
             _ => "SIGNAL",
         };
         let init = if s.init.is_empty() { "-".to_string() } else { s.init.iter().map(|(p, c)| format!("{}:{}", hex(p.as_bytes()), hex(c))).collect::<Vec<_>>().join(";") };
-        out.line("cases.txt", &format!("{} T={} I={} D={} IN={}", id, k.table(), init, dec, hex(&s.input)));
+        let st_field = if s.stale.is_empty() { "-".to_string() } else { s.stale.iter().map(|(p, c)| format!("{}:{}", hex(p.as_bytes()), hex(c))).collect::<Vec<_>>().join(";") };
+        out.line("cases.txt", &format!("{} T={} I={} D={} IN={} ST={}", id, k.table(), init, dec, hex(&s.input), st_field));
+        if !s.stale.is_empty() { out.count("sessions_with_leftover_staging_files"); }
         out.line("impl.txt", &format!("{} {} R={} F={}", id, exit, if rs.is_empty() { "-".to_string() } else { rs.join(",") }, after));
         out.count("sessions");
         out.count(&format!("class_{}", s.class));
@@ -444,11 +472,11 @@ pub fn main_c12(a: Args) -> i32 {
             nfail += 1;
             out.line("specfail.txt", &format!("{} C12 server crashed or hung: code {:?} signal {:?} class {}", id, run.code, run.signal, s.class));
         }
-        if rs.is_empty() && before != after {
+        if rs.is_empty() && (before != after || before_raw != after_raw) {
             nfail += 1;
             out.line("specfail.txt", &format!("{} C12 served tree changed although no request was answered (class {})", id, s.class));
         }
-        if (s.input.len() < 6 || &s.input[..6] != MAGIC) && (before != after || exit == "EXIT0" || !run.stdout.is_empty()) {
+        if (s.input.len() < 6 || &s.input[..6] != MAGIC) && (before != after || before_raw != after_raw || exit == "EXIT0" || !run.stdout.is_empty()) {
             nfail += 1;
             out.line("specfail.txt", &format!("{} C12 bad prologue not rejected without effect: exit {} out {} bytes", id, exit, run.stdout.len()));
         }
@@ -487,6 +515,12 @@ pub fn main_c12(a: Args) -> i32 {
                     }
                     out.count("in_step_differentials");
                 }
+            }
+        }
+        for (p, c) in &s.stale {
+            if !after_raw.iter().any(|(q, d)| q == p && d == c) && !(rs.iter().any(|x| x.starts_with("PutResult") || x.starts_with("DeleteResult")) && s.input.windows(p.len()).any(|w| w == p.as_bytes())) {
+                nfail += 1;
+                out.line("specfail.txt", &format!("{} C12 a file of the served tree that no request named was removed or changed: {:?} (a leftover staging file; class {})", id, p, s.class));
             }
         }
         if id % 41 == 5 && s.input.len() < 200 {
